@@ -349,10 +349,19 @@ class CWorld(object):
             shutil.rmtree(self.dir, ignore_errors=True)
 
 
-def abstract_index(reader, adocs):
+def abstract_index(reader, adocs, order=None):
     docs = []
     for dn in range(reader.doc_count_all()):
-        sf = reader.stored_fields(dn)
+        try:
+            sf = reader.stored_fields(dn)
+        except KeyError:
+            if not reader.is_deleted(dn):
+                raise
+            # (a document deleted while still in a BufferedWriter's memory: its stored fields are not kept; the
+            # driver says which document it was - `order` lists the keys in the order they were added)
+            if order is None:
+                raise
+            sf = {"key": order[dn]}
         k = sf["key"] if "key" in sf else sf["sid"]
         d = adocs[k]
         docs.append({"live": not reader.is_deleted(dn),
